@@ -117,18 +117,27 @@ struct Obs {
     sniff: String,
 }
 
-fn observe(iso: &mut Isolated, hexs: &str) -> Obs {
-    let mut one = |kind: &str, t: &str, a: &str| -> String {
+/// Each hang costs a full watchdog period; after `budget` of them the remaining observations
+/// are reported as not run (tag `trivial-notrun`), so that a tree on which many inputs hang
+/// is still reported within a bounded time.
+fn observe(iso: &mut Isolated, hexs: &str, budget: &mut usize) -> Obs {
+    let mut one = |kind: &str, t: &str, a: &str, nr: &str| -> String {
+        if *budget == 0 {
+            return nr.to_string();
+        }
         match iso.run(&format!("{} {}", kind, hexs)) {
             JobResult::Done(s) => s,
-            JobResult::Timeout => t.to_string(),
+            JobResult::Timeout => {
+                *budget -= 1;
+                t.to_string()
+            }
             JobResult::Abort(_) => a.to_string(),
         }
     };
     Obs {
-        buf: one("buf", "OTimeout", "OAbort"),
-        file: one("file", "OTimeout", "OAbort"),
-        sniff: one("sniff", "STimeout", "SAbort"),
+        buf: one("buf", "OTimeout", "OAbort", "ONotRun"),
+        file: one("file", "OTimeout", "OAbort", "ONotRun"),
+        sniff: one("sniff", "STimeout", "SAbort", "SNotRun"),
     }
 }
 
@@ -145,6 +154,7 @@ fn class_of(o: &str) -> &str {
 fn exec() {
     let debug = cfg!(debug_assertions);
     let mut iso = Isolated::new(&["worker"], WATCHDOG_MS);
+    let mut budget: usize = std::env::var("VERIF_TIMEOUT_BUDGET").ok().and_then(|s| s.parse().ok()).unwrap_or(12);
     let stdin = std::io::stdin();
     let out = std::io::stdout();
     for line in stdin.lock().lines() {
@@ -159,8 +169,14 @@ fn exec() {
             None => ("raw", line),
         };
         let bytes = unhex(hexs);
-        let o = observe(&mut iso, hexs);
-        let tag = if bytes.is_empty() { "trivial-empty".to_string() } else { format!("{}-{}", label, class_of(&o.buf)) };
+        let o = observe(&mut iso, hexs, &mut budget);
+        let tag = if bytes.is_empty() {
+            "trivial-empty".to_string()
+        } else if o.buf == "ONotRun" || o.file == "ONotRun" || o.sniff == "SNotRun" {
+            "trivial-notrun".to_string()
+        } else {
+            format!("{}-{}", label, class_of(&o.buf))
+        };
         let term = format!(
             "{{| c_debug := {}; c_input := {}; c_buf := {}; c_file := {}; c_sniff := {} |}}",
             debug,
@@ -182,7 +198,7 @@ fn main() {
         Some("exec") => exec(),
         Some("probe") => {
             let mut iso = Isolated::new(&["worker"], WATCHDOG_MS);
-            let o = observe(&mut iso, &args[2]);
+            let o = observe(&mut iso, &args[2], &mut 100);
             println!("debug={} buf={} file={} sniff={}", cfg!(debug_assertions), o.buf, o.file, o.sniff);
         }
         Some("gen") => {
@@ -191,7 +207,8 @@ fn main() {
             let tier = args.get(4).map(|s| s.as_str()).unwrap_or("quick");
             let stdout = std::io::stdout();
             let mut w = std::io::BufWriter::new(stdout.lock());
-            vh_proto::gen38::generate(seed, n, tier, &mut w);
+            let skip = args.get(5).and_then(|s| s.strip_prefix("skip=")).unwrap_or("");
+            vh_proto::gen38::generate(seed, n, tier, skip, &mut w);
         }
         _ => {
             eprintln!("usage: c38 gen <seed> <n> <tier> | exec | probe <hex>");
